@@ -144,6 +144,43 @@ func (r TLCRun) Run() (TLCStats, error) {
 	return st, fmt.Errorf("TLC %s/%s did not reach a verdict (err=%v):\n%s", r.Module, r.Cfg, err, tail)
 }
 
+// ApalacheRun runs the symbolic model checker on an annotated module: bounded execution of the given
+// length with one invariant. NoError = the invariant holds on every execution of that length for every
+// value of the symbolic constants / initial states; Error = a counterexample exists.
+func ApalacheRun(dir, module, cfg, inv string, length int, xmxMB int, timeout time.Duration, outDir string) (TLCStats, error) {
+	var st TLCStats
+	ctx, cancel := context.WithTimeout(context.Background(), timeout)
+	defer cancel()
+	cmd := exec.CommandContext(ctx, "apalache-mc", "check", "--config="+cfg, "--length="+strconv.Itoa(length), "--inv="+inv,
+		"--out-dir="+outDir, "--write-intermediate=false", module+".tla")
+	cmd.Dir = dir
+	cmd.Env = append(os.Environ(), fmt.Sprintf("JVM_ARGS=-Xmx%dm", xmxMB))
+	var buf bytes.Buffer
+	cmd.Stdout, cmd.Stderr = &buf, &buf
+	t0 := time.Now()
+	err := cmd.Run()
+	st.Seconds = time.Since(t0).Seconds()
+	st.Output = buf.String()
+	os.RemoveAll(outDir)
+	if ctx.Err() != nil {
+		return st, fmt.Errorf("apalache %s/%s timed out after %v", module, cfg, timeout)
+	}
+	switch {
+	case strings.Contains(st.Output, "The outcome is: NoError"):
+		st.OK = true
+		st.Depth = length
+		return st, nil
+	case strings.Contains(st.Output, "The outcome is: Error"):
+		st.Violated = inv
+		return st, nil
+	}
+	tail := st.Output
+	if len(tail) > 3000 {
+		tail = tail[len(tail)-3000:]
+	}
+	return st, fmt.Errorf("apalache %s/%s did not reach a verdict (err=%v):\n%s", module, cfg, err, tail)
+}
+
 // ReadEmitted reads a file of cases emitted by a TLC run through CSVWrite("%1$s", <<ToJson(x)>>, f).
 // Depending on the value, each line is either JSON or a JSON string holding JSON.
 func ReadEmitted(path string) ([]map[string]any, error) {
